@@ -1,13 +1,17 @@
 /-! # C08 model — context addressing, formatting and the update elements
 
-Transcription of (working tree of /repo, after the `fix:` commits f0c4638, 2100e4a, e5c725f, 5478e2e)
+Transcription of (working tree of /repo, after the `fix:` commits f0c4638, 2100e4a, e5c725f, 5478e2e, and
+with the two patches of /verif/notes/C08_defect_1 (a non-string key is a `LenaTypeError` in `str_to_dict` /
+`str_to_list`) and C08_defect_2 (`UpdateContext(value=True)`: nothing after the closing braces, blanks around
+the key dropped))
 * `lena/context/functions.py`: `contains` (14-63), `format_context` (111-212), `format_update_with`
   (215-239), `get_recursively` (245-338), `str_to_dict` (421-471), `str_to_list` (474-495),
   `to_string` (498-535), `update_recursively` (601-653);
 * `lena/context/update_context.py`: `UpdateContext.__init__` (16-166), `__call__` (168-234);
 * `lena/context/elements.py`: `DeleteContext.__init__` (10-30), `__call__` (32-58);
 * `lena/meta/elements.py`: `SetContext.__init__`, `_set_context`, `_get_context` (18-64);
-* `lena/flow/functions.py`: `get_data_context`, `_has_context` (31-56).
+* `lena/flow/functions.py`: `get_data_context`, `_has_context` (31-56);
+* `lena/context/context.py`: `Context.__call__`, `__getattr__`, `__repr__` (default formatter).
 
 **Dictionaries are insertion-ordered association lists with string keys** (`Entries`), exactly what a
 Python `dict` with `str` keys is: `d[k]` is `lookup`, `d[k] = v` is `setKey` (in place when the key
@@ -26,18 +30,23 @@ namespace Lena.C08
 
 /-! ## Values -/
 
-/-- a scalar of a context -/
+/-- a scalar of a context.  A float is represented by its `repr` (`"1.5"`, `"inf"`, `"nan"`): nothing here
+computes with it.  `obj` is an object of any other class (a set, a user object): all that the code can
+observe of it is `str()` — the string, or `none` when `str()` raises — and that it is not JSON-serialisable. -/
 inductive Leaf where
   | none
   | bool (b : Bool)
   | int (i : Int)
   | str (s : String)
+  | float (repr : String)
+  | obj (str : Option String)
   deriving DecidableEq, Repr
 
-/-- a context value: a scalar or a dictionary with string keys (in insertion order) -/
+/-- a context value: a scalar, a list, or a dictionary with string keys (in insertion order) -/
 inductive Val where
   | leaf (a : Leaf)
   | dict (es : List (String × Val))
+  | list (xs : List Val)
   deriving Repr
 
 abbrev Entries := List (String × Val)
@@ -51,28 +60,34 @@ inductive Exc where
   | lenaKeyError
   | valueError          -- builtin `ValueError` raised by `str.format` (documented by `format_context`)
   | indexError          -- builtin `IndexError` (string index out of range in the scanner)
+  | lenaAttributeError  -- `Context.__getattr__` for a missing public attribute
+  | attributeError      -- builtin `AttributeError` (`Context.__getattr__` for a private name)
   | unmodelled
   deriving DecidableEq, Repr
 
-/-- Python `str(x)` of a scalar -/
-def pyStr : Leaf → String
-  | .none => "None"
-  | .bool true => "True"
-  | .bool false => "False"
-  | .int i => toString i
-  | .str s => s
+/-- Python `str(x)` of a scalar; `none`: `str()` raises -/
+def pyStr : Leaf → Option String
+  | .none => some "None"
+  | .bool true => some "True"
+  | .bool false => some "False"
+  | .int i => some (toString i)
+  | .str s => some s
+  | .float r => some r
+  | .obj s => s
 
-/-- Python truthiness of a scalar -/
+/-- Python truthiness of a scalar (an object of another class is taken to be true) -/
 def Leaf.truthy : Leaf → Bool
   | .none => false
   | .bool b => b
   | .int i => i != 0
   | .str s => s != ""
+  | .float r => r != "0.0" && r != "-0.0"
+  | .obj _ => true
 
 /-- `isinstance(v, dict)` -/
 def Val.isDict : Val → Bool
   | .dict _ => true
-  | .leaf _ => false
+  | _ => false
 
 /-! ## Dictionary primitives -/
 
@@ -96,6 +111,7 @@ met before the path ends.  Reference notion used by the theorems, not a transcri
 def getPath : Val → List String → Option Val
   | v, [] => some v
   | .leaf _, _ :: _ => none
+  | .list _, _ :: _ => none
   | .dict es, k :: p =>
     match lookup es k with
     | some w => getPath w p
@@ -103,12 +119,13 @@ def getPath : Val → List String → Option Val
 
 /-! Python `==` on contexts, type-strict on scalars (`True` and `1` differ, as they do for `to_string`):
 two dictionaries are equal when every item of the first is in the second with an equal value and every
-key of the second is a key of the first.  Executable counterpart of the relation `DictEq` of the theorem
+key of the second is a key of the first; two lists when they are equal element by element.  Executable counterpart of the relation `DictEq` of the theorem
 files; compared with the harness's strict equality of Python values. -/
 mutual
 def pyEq : Val → Val → Bool
   | .leaf a, .leaf b => a == b
   | .dict ea, .dict eb => subEq ea eb && eb.all (fun e => (lookup ea e.1).isSome)
+  | .list xa, .list xb => listEq xa xb
   | _, _ => false
 def subEq : Entries → Entries → Bool
   | [], _ => true
@@ -116,6 +133,10 @@ def subEq : Entries → Entries → Bool
     (match lookup eb k with
      | some w => pyEq v w
      | none => false) && subEq r eb
+def listEq : List Val → List Val → Bool
+  | [], [] => true
+  | x :: r, y :: r' => pyEq x y && listEq r r'
+  | _, _ => false
 end
 
 /-! ## Splitting dotted strings -/
@@ -140,8 +161,13 @@ def joinDots (p : List String) : String := String.ofList (joinDotsC (p.map Strin
 
 /-! ## `str_to_list`, `str_to_dict` (functions.py:421-495) -/
 
-/-- `str_to_list(s)` -/
+/-- `str_to_list(s)` for a string -/
 def strToList (s : String) : List String := if s = "" then [] else splitDots s
+
+/-- `str_to_list(s)`; `none`: `s` is not a string (`LenaTypeError`, /verif/notes/C08_defect_1) -/
+def strToListE : Option String → Except Exc (List String)
+  | none => .error .lenaTypeError
+  | some s => .ok (strToList s)
 
 /-- `nest_list({}, l)` for `l = keys ++ [last]`: `len(l) < 2` is a `LenaValueError`, `len(l) == 2`
 gives `{l[0]: l[1]}`, otherwise `{l[0]: nest_list({}, l[1:])}` -/
@@ -166,6 +192,12 @@ def strToDict (s : String) (value : Option Val) : Except Exc Val :=
     | some v => nestList parts v
     | none => nestList parts.dropLast (.leaf (.str (parts.getLastD "")))
 
+/-- `str_to_dict(s, value)`; `none`: `s` is not a string (`LenaTypeError`, /verif/notes/C08_defect_1) -/
+def strToDictE (s : Option String) (value : Option Val) : Except Exc Val :=
+  match s with
+  | none => .error .lenaTypeError
+  | some s => strToDict s value
+
 /-! ## `get_recursively` (functions.py:245-338) -/
 
 /-- the `keys` argument: the three notations, and anything else -/
@@ -179,10 +211,14 @@ inductive KeyArg where
 /-! the loop `while keys:` over a dictionary `keys` (lines 292-305): a dictionary with more than one
 key raises `LenaValueError`, a false value ends the loop, a true non-dictionary is appended as the
 last key, the only key of a one-key dictionary is appended and the loop goes on with its value.
-The normalised keys are hashable Python scalars, i.e. `Leaf`s. -/
+The normalised keys are hashable Python scalars, i.e. `Leaf`s; a non-empty list or an object of another
+class as the innermost value (it would be appended as a key, and a list is not hashable) is not modelled. -/
 mutual
 def keysOfVal : Val → Except Exc (List Leaf)
+  | .leaf (.obj _) => .error .unmodelled
   | .leaf a => .ok (if a.truthy then [a] else [])
+  | .list [] => .ok []
+  | .list (_ :: _) => .error .unmodelled
   | .dict es => keysOfEntries es
 def keysOfEntries : Entries → Except Exc (List Leaf)
   | [] => .ok []
@@ -199,7 +235,7 @@ def isStrVal : Val → Bool
 
 def leafOfVal : Val → Option Leaf
   | .leaf a => some a
-  | .dict _ => none
+  | _ => none
 
 /-- lines 286-317: normalisation of the three notations to a list of keys -/
 def normKeys : KeyArg → Except Exc (List Leaf)
@@ -225,7 +261,6 @@ def walk : Entries → List Leaf → Option Val
 /-- `get_recursively(d, keys, default)`; `default = none` is the sentinel -/
 def getRec (d : Val) (keys : KeyArg) (default : Option Val) : Except Exc Val :=
   match d with
-  | .leaf _ => .error .lenaTypeError
   | .dict es =>
     match normKeys keys with
     | .error e => .error e
@@ -236,6 +271,52 @@ def getRec (d : Val) (keys : KeyArg) (default : Option Val) : Except Exc Val :=
         match default with
         | some dv => .ok dv
         | none => .error .lenaKeyError
+  | _ => .error .lenaTypeError
+
+/-! ## Python `repr` / `str` of values (used by `contains`, `format_context`, jinja2 rendering) -/
+
+/-- characters that `repr` of a string leaves as they are and that do not change its quotes -/
+def isSimpleChar (c : Char) : Bool :=
+  c.toNat ≥ 32 && c.toNat < 127 && c != '\'' && c != '"' && c != '\\'
+
+/-- `repr(s)` of a string without quotes, backslashes, control and non-ASCII characters; other strings
+are not modelled -/
+def reprStr (s : String) : Option String :=
+  if s.toList.all isSimpleChar then some ("'" ++ s ++ "'") else none
+
+def reprLeaf : Leaf → Option String
+  | .none => some "None"
+  | .bool true => some "True"
+  | .bool false => some "False"
+  | .int i => some (toString i)
+  | .str s => reprStr s
+  | .float r => some r
+  | .obj _ => none
+
+/-! `repr` of a dictionary (in insertion order) and of a list; `none` = not modelled -/
+mutual
+def reprVal : Val → Option String
+  | .leaf a => reprLeaf a
+  | .dict es => (reprEntries es).map (fun l => "{" ++ ", ".intercalate l ++ "}")
+  | .list xs => (reprList xs).map (fun l => "[" ++ ", ".intercalate l ++ "]")
+def reprEntries : Entries → Option (List String)
+  | [] => some []
+  | (k, v) :: r =>
+    match reprStr k, reprVal v, reprEntries r with
+    | some a, some b, some c => some ((a ++ ": " ++ b) :: c)
+    | _, _, _ => none
+def reprList : List Val → Option (List String)
+  | [] => some []
+  | v :: r =>
+    match reprVal v, reprList r with
+    | some b, some c => some (b :: c)
+    | _, _ => none
+end
+
+/-- Python `str(v)`: `str` of a scalar, `repr` of a container; `none` = it raises or is not modelled -/
+def pyStrVal : Val → Option String
+  | .leaf a => pyStr a
+  | v => reprVal v
 
 /-! ## `contains` (functions.py:14-63) -/
 
@@ -244,12 +325,14 @@ def getRec (d : Val) (keys : KeyArg) (default : Option Val) : Except Exc Val :=
 def containsGo : Val → List String → Bool
   | _, [] => false
   | .dict l, [last] => (lookup l last).isSome                   -- `last_val in subdict`
-  | .leaf a, [last] => pyStr a == last                          -- `str(subdict) == last_val`
+  | .leaf a, [last] => pyStr a == some last                     -- `str(subdict) == last_val`; `str` raises: False
+  | .list xs, [last] => reprVal (.list xs) == some last         -- (a list whose `repr` is not modelled: False)
   | .dict l, key :: rest =>
     match lookup l key with
     | none => false                                             -- `key not in subdict`
     | some w => containsGo w rest
   | .leaf _, _ :: _ :: _ => false                               -- `not isinstance(subdict, dict)`
+  | .list _, _ :: _ :: _ => false
 
 /-- `contains(d, s)` for a dictionary `d`: the empty string names the context itself;
 `len(levels) < 2` gives `s in d`, which is the same test as the general one -/
@@ -343,10 +426,12 @@ def formatInit (fs : Option String) : Except Exc Fmt :=
         | .ok (o, a) => .ok ⟨o, a⟩
         | .error e => .error e
 
-/-- Python `str(v)` where the model transcribes it (scalars) -/
-def strOfVal : Val → Except Exc String
-  | .leaf a => .ok (pyStr a)
-  | .dict _ => .error .unmodelled
+/-- Python `str(v)` where the model transcribes it (`pyStrVal`); an object whose `str()` raises and a
+container with a string whose `repr` is not modelled give `unmodelled` -/
+def strOfVal (v : Val) : Except Exc String :=
+  match pyStrVal v with
+  | some s => .ok s
+  | none => .error .unmodelled
 
 /-- `format_str.format(*args)` for the format strings the scanner produces: `{{` and `}}` are
 literal braces, `{}` is the next positional argument, a single `}` is a `ValueError`; conversions
@@ -418,6 +503,7 @@ def formatCall (f : Fmt) (ctx : Val) : Except Exc String :=
 (trusted: it is injective on strings and on the scalars `None`, `bool`, `int`, `str`) -/
 inductive Tok where
   | lbrace | rbrace | comma | colon
+  | lbrack | rbrack
   | key (s : String)
   | scalar (a : Leaf)
   deriving DecidableEq, Repr
@@ -438,15 +524,42 @@ def joinItems : List (String × List Tok) → List Tok
   | (k, t) :: e :: r => .key k :: .colon :: t ++ .comma :: joinItems (e :: r)
 
 /-! the encoder: a dictionary is `{` + its items, sorted by key, each `key:value`, separated by
-`,` + `}` — at every level. -/
+`,` + `}` — at every level; a list is `[` + its elements in order, separated by `,` + `]`. -/
 mutual
 def toTokens : Val → List Tok
   | .leaf a => [.scalar a]
   | .dict es => .lbrace :: joinItems (sortItems (itemTokens es)) ++ [.rbrace]
+  | .list xs => .lbrack :: (elemTokens xs ++ [.rbrack])
 def itemTokens : Entries → List (String × List Tok)
   | [] => []
   | (k, v) :: r => (k, toTokens v) :: itemTokens r
+def elemTokens : List Val → List Tok
+  | [] => []
+  | v :: r =>
+    match r with
+    | [] => toTokens v
+    | _ :: _ => toTokens v ++ .comma :: elemTokens r
 end
+
+/-! can `json.dumps` encode the value: every scalar is `None`, a `bool`, an `int`, a `float` or a `str` -/
+mutual
+def serialisable : Val → Bool
+  | .leaf (.obj _) => false
+  | .leaf _ => true
+  | .dict es => serialisableE es
+  | .list xs => serialisableL xs
+def serialisableE : Entries → Bool
+  | [] => true
+  | (_, v) :: r => serialisable v && serialisableE r
+def serialisableL : List Val → Bool
+  | [] => true
+  | v :: r => serialisable v && serialisableL r
+end
+
+/-- `to_string(d)`: the tokens of the JSON text, or `LenaValueError` for an unserialisable item (lines
+525-534: `TypeError` of `json.dumps` is turned into `LenaValueError`) -/
+def toStringE (v : Val) : Except Exc (List Tok) :=
+  if serialisable v then .ok (toTokens v) else .error .lenaValueError
 
 /-- JSON spelling of a string without characters that need escaping (used by the driver only) -/
 def jsonStr (s : String) : String := "\"" ++ s ++ "\""
@@ -455,12 +568,16 @@ def jsonStr (s : String) : String := "\"" ++ s ++ "\""
 strings without characters that JSON escapes) -/
 def Tok.spell : Tok → String
   | .lbrace => "{" | .rbrace => "}" | .comma => "," | .colon => ":"
+  | .lbrack => "[" | .rbrack => "]"
   | .key s => jsonStr s
   | .scalar .none => "null"
   | .scalar (.bool true) => "true"
   | .scalar (.bool false) => "false"
   | .scalar (.int i) => toString i
   | .scalar (.str s) => jsonStr s
+  | .scalar (.float r) =>
+    if r = "inf" then "Infinity" else if r = "-inf" then "-Infinity" else if r = "nan" then "NaN" else r
+  | .scalar (.obj _) => "?"
 
 def toStringV (v : Val) : String := String.join ((toTokens v).map Tok.spell)
 
@@ -476,10 +593,11 @@ def updRec (d : Entries) : Entries → Entries
   | (k, v) :: r => updRec (setKey d k (updItem (lookup d k) v)) r
 def updItem (cur : Option Val) : Val → Val
   | .leaf a => .leaf a
+  | .list xs => .list xs
   | .dict o =>
     match cur with
     | some (.dict dk) => .dict (updRec dk o)
-    | some (.leaf _) => .dict (updRec [] o)
+    | some _ => .dict (updRec [] o)
     | none => .dict o
 end
 
@@ -519,14 +637,14 @@ def formatValue (value : Val) (d : Val) : Except Exc Val :=
   | _ => .ok value
 
 /-- lines 237-239: `update_recursively(d, str_to_dict(key, value_formatted))` -/
-def assignFormatted (key : String) (vf : Val) (d : Val) : Except Exc Val :=
-  match strToDict key (some vf) with
+def assignFormatted (key : Option String) (vf : Val) (d : Val) : Except Exc Val :=
+  match strToDictE key (some vf) with
   | .error e => .error e
   | .ok fctx => updateRecursively d (.val fctx) none
 
 /-- `format_update_with(key, value, d)`: returns the new state of `d` (on an exception `d` is
-unchanged: the update is the last statement) -/
-def formatUpdateWith (key : String) (value : Val) (d : Val) : Except Exc Val :=
+unchanged: the update is the last statement); `key = none`: not a string -/
+def formatUpdateWith (key : Option String) (value : Val) (d : Val) : Except Exc Val :=
   match formatValue value d with
   | .error e => .error e
   | .ok vf => assignFormatted key vf d
@@ -591,14 +709,30 @@ structure UC where
   recursively : Bool
   deriving Repr
 
-/-- `re.match('{{[^{}]+}}$', update)`: two opening braces, at least one character that is not a
-brace, two closing braces, then the end of the string or a final newline -/
+/-- `\s` of `re` and what `str.strip()` removes, for ASCII -/
+def isSpace (c : Char) : Bool :=
+  c == ' ' || c == '\t' || c == '\n' || c == '\r' || c == '\x0b' || c == '\x0c'
+
+/-- `re.match(r'{{\s*[^{}\s][^{}]*}}\Z', update)` (/verif/notes/C08_defect_2): two opening braces, characters
+that are not braces with at least one that is not a blank, two closing braces, the end of the string.
+`seen`: a non-blank character was read. -/
 def matchBody : List Char → Bool → Bool
   | [], _ => false
   | c :: r, seen =>
     if c = '{' then false
-    else if c = '}' then seen && (r = ['}'] || r = ['}', '\n'])
-    else matchBody r true
+    else if c = '}' then seen && r = ['}']
+    else matchBody r (seen || !isSpace c)
+
+def dropWhileSpace : List Char → List Char
+  | [] => []
+  | c :: r => if isSpace c then dropWhileSpace r else c :: r
+
+/-- `s.strip()` -/
+def strip (s : List Char) : List Char := (dropWhileSpace (dropWhileSpace s).reverse).reverse
+
+/-- `update[2:-2].strip()` -/
+def valueKey (u : String) : String :=
+  String.ofList (strip ((u.toList.drop 2).take (u.toList.length - 4)))
 
 def matchValueTemplate (s : List Char) : Bool :=
   match s with
@@ -701,9 +835,7 @@ def ucInit (a : UCArgs) : Except Exc UC :=
           if nActive ≠ 0 then .error .lenaValueError else .ok (mk (.simple v) a.raiseOnMissing)
         | .str u =>
           if a.value && matchValueTemplate u.toList then
-            -- `update[2:-2]`
-            let key := String.ofList ((u.toList.drop 2).take (u.toList.length - 4))
-            .ok (mk (.ctxValue key)
+            .ok (mk (.ctxValue (valueKey u))
               (if !a.default.isSome && !a.skipOnMissing then true else a.raiseOnMissing))
           else if a.value then .error .lenaValueError
           else if a.default.isSome then .error .lenaValueError
@@ -790,16 +922,19 @@ def ucCall {δ} (uc : UC) (value : Item δ) : Except Exc (Item δ) :=
 
 /-! ## `DeleteContext` (elements.py) -/
 
-/-- the `key` argument: a dotted string, or a list/tuple of strings -/
+/-- the `key` argument: a dotted string, a list/tuple of strings, or an object of another type -/
 inductive DelKey where
   | str (s : String)
   | list (ks : List String)
+  | other
   deriving Repr
 
-/-- `DeleteContext.__init__`: `self._keyl` -/
-def dcInit : DelKey → List String
-  | .str s => strToList s
-  | .list ks => ks
+/-- `DeleteContext.__init__`: `self._keyl`; anything but a list, a tuple or a string is rejected by
+`str_to_list` (`LenaTypeError`, /verif/notes/C08_defect_1) -/
+def dcInit : DelKey → Except Exc (List String)
+  | .str s => strToListE (some s)
+  | .list ks => .ok ks
+  | .other => strToListE none
 
 /-- deletion below the dictionary reached through `keyl[:-1]` (lines 44-57): every key of the prefix
 must lead to a dictionary (`get_recursively` raises `LenaKeyError` otherwise, or the result is not a
@@ -821,7 +956,7 @@ def dcCall {δ} (keyl : List String) : Item δ → Item δ
 
 /-- `_static_context` (if set) and whether a `LenaKeyError` is stored in `_exc` -/
 structure SetCtx where
-  key : String
+  key : Option String
   value : Val
   static : Option Val
   deriving Repr
@@ -834,7 +969,7 @@ def SetCtx.setContext (s : SetCtx) (context : Val) : SetCtx × Option Exc :=
   | .error e => (s, some e)
 
 /-- `SetContext.__init__(key, value)`: `_set_context({})`, a `LenaKeyError` is swallowed -/
-def setCtxInit (key : String) (value : Val) : Except Exc SetCtx :=
+def setCtxInit (key : Option String) (value : Val) : Except Exc SetCtx :=
   match (SetCtx.mk key value none).setContext (.dict []) with
   | (s, none) => .ok s
   | (s, some .lenaKeyError) => .ok s
@@ -845,5 +980,57 @@ def SetCtx.getContext (s : SetCtx) : Except Exc Val :=
   match s.static with
   | some c => .ok c
   | none => .error .lenaKeyError
+
+/-! ## `Context` (lena/context/context.py) -/
+
+/-- `Context.__call__(value)` for a `(data, context)` pair: the same data, the context as a `Context`
+(a `dict` subclass with the same items).  For a value without context the code unpacks `value` and what
+happens depends on the data (usually a builtin `TypeError`): not modelled. -/
+def contextCall {δ} : Item δ → Except Exc (Item δ)
+  | .pair x c => .ok (.pair x c)
+  | .bare _ => .error .unmodelled
+
+/-- `Context.__getattr__(name)`: a private name is an `AttributeError`, a missing key a
+`LenaAttributeError`, otherwise the item -/
+def contextGetAttr (c : Entries) (name : String) : Except Exc Val :=
+  if name.toList.head? = some '_' then .error .attributeError
+  else
+    match lookup c name with
+    | some v => .ok v
+    | none => .error .lenaAttributeError
+
+def pad (n : Nat) : String := String.ofList (List.replicate n ' ')
+
+/-- insertion of one rendered line group into the groups sorted by key -/
+def insertLine (k : String) (t : String) : List (String × String) → List (String × String)
+  | [] => [(k, t)]
+  | (k', t') :: r => if k ≤ k' then (k, t) :: (k', t') :: r else (k', t') :: insertLine k t r
+
+def sortLines : List (String × String) → List (String × String)
+  | [] => []
+  | (k, t) :: r => insertLine k t (sortLines r)
+
+/-! `Context.__repr__` with the default formatter: `json.dumps(self, sort_keys=True, indent=4)` (exact for
+keys and strings that JSON does not escape); `ind` is the indentation of the enclosing line -/
+mutual
+def pretty (ind : Nat) : Val → String
+  | .leaf a => (Tok.scalar a).spell
+  | .dict es =>
+    if es.isEmpty then "{}"
+    else "{\n" ++ ",\n".intercalate ((sortLines (prettyItems (ind + 4) es)).map (·.2)) ++ "\n" ++ pad ind ++ "}"
+  | .list xs =>
+    if xs.isEmpty then "[]"
+    else "[\n" ++ ",\n".intercalate (prettyElems (ind + 4) xs) ++ "\n" ++ pad ind ++ "]"
+def prettyItems (ind : Nat) : Entries → List (String × String)
+  | [] => []
+  | (k, v) :: r => (k, pad ind ++ jsonStr k ++ ": " ++ pretty ind v) :: prettyItems ind r
+def prettyElems (ind : Nat) : List Val → List String
+  | [] => []
+  | v :: r => (pad ind ++ pretty ind v) :: prettyElems ind r
+end
+
+/-- `repr(Context(d))` -/
+def contextRepr (c : Entries) : Except Exc String :=
+  if serialisableE c then .ok (pretty 0 (.dict c)) else .error .unmodelled
 
 end Lena.C08
